@@ -65,7 +65,7 @@ void Child::event(const char *fmt, ...) {
   log.add(buf, n);
   log.add("\n", 1);
   res.steps++;
-  if (verbose) { fwrite(buf, 1, n, stdout); fputc('\n', stdout); fflush(stdout); }
+  if (verbose) { if (getenv("ORCSIM_SELFTEST_VERBOSE")) fprintf(stdout, "[%d] ", (int)getpid()); fwrite(buf, 1, n, stdout); fputc('\n', stdout); fflush(stdout); }
 }
 
 static void write_all(int fd, const std::string &s) {
@@ -697,7 +697,7 @@ static int cmd_selftest(const Engine *eng) {
       if (!s.pid && next < g_opt.runs * 2) {
         s.job = next;
         s.buf.clear();
-        s.pid = spawn_child(eng, jobs[next / 2].plan, s.rfd, s.efd, false);
+        s.pid = spawn_child(eng, jobs[next / 2].plan, s.rfd, s.efd, getenv("ORCSIM_SELFTEST_VERBOSE") != nullptr);
         s.started = now_s();
         next++;
       }
@@ -733,6 +733,12 @@ static int cmd_selftest(const Engine *eng) {
              (unsigned long long)i, (unsigned long long)mix2(g_opt.seed, i + 1), (unsigned long long)a.loghash,
              (unsigned long long)b.loghash, (unsigned long long)a.steps, (unsigned long long)b.steps,
              a.sig().c_str(), b.sig().c_str(), a.end.c_str(), b.end.c_str());
+      if (getenv("ORCSIM_SELFTEST_VERBOSE")) {
+        for (int k = 0; k < 2; k++) {
+          FILE *f = fopen(strf("/tmp/orcsim-divergence-%llu-%d.log", (unsigned long long)i, k).c_str(), "w");
+          if (f) { fputs(jobs[i].r[k].stderr_tail.c_str(), f); fclose(f); }
+        }
+      }
     }
   }
   // print a digest over all hashes so that runs at different worker counts can be compared
